@@ -23,7 +23,8 @@ import BpModel.Chan
     * `asyncio.ensure_future(self._flush_queue())` appends a not yet started task whose coroutine is `_flush_queue()`;
     * `x is self.__flush`: the sentinel is the item `Item.flush`, distinct from every data item (`__flush = object()`);
     * `max(a, b)`, `range(n)` (only its number of elements: the translator refuses a loop body that reads the variable),
-      `a and b` on bools, `<=`, `+`, `-` on ints;
+      `a and b` on bools, `<=`, `+`, `-` on ints; a `for` loop evaluates its head (`iter`) before every iteration and
+      once more to leave;
     * `await self._queue.get()` / `put(x)`: `tryGet` / `tryPut` are one pass through `while self.empty():` /
       `while self.full():` — `none` means the coroutine suspends on a new waiter future (`suspendOn`); when
       CancelledError is thrown into the coroutine at that await, `cancelWaiter` is the `except:` clause of
@@ -69,6 +70,9 @@ inductive Co where
   | ensureFlush (k : Co)
   | awaitGet (k : Item → Co) (h : Exc → Co)
   | awaitPut (x : Item) (k : Co) (h : Exc → Co)
+  /-- the head of a `for` loop (the next element is fetched or the loop is left): no effect; it only ENDS a
+      synchronous segment, as an `await` does (the model's atomic actions are loop iterations) -/
+  | iter (c : Co)
 
 /-- `x is self.__flush` -/
 def isFlush (x : Item) : Bool := x == Item.flush
@@ -88,7 +92,7 @@ def storeClosed (s : Sys) (b : Bool) : Sys :=
            preClose := if b then (match s.preClose with | none => some s.putLog.length | some n => some n)
                        else s.preClose }
 
-/-- run the synchronous commands at the head of a program; stops at `ret`, `raise` or an `await` -/
+/-- run the synchronous commands at the head of a program; stops at `ret`, `raise`, an `await` or a loop head -/
 def runSync (s : Sys) : Co → Sys × Co
   | .getClosed k => runSync s (k s.closed)
   | .setClosed b k => runSync (storeClosed s b) k
@@ -105,6 +109,12 @@ def runSync (s : Sys) : Co → Sys × Co
   | .raise e => (s, .raise e)
   | .awaitGet k h => (s, .awaitGet k h)
   | .awaitPut x k h => (s, .awaitPut x k h)
+  | .iter c => (s, .iter c)
+
+/-- go through a loop head -/
+def unIter : Co → Co
+  | .iter c => c
+  | c => c
 
 /-- one pass through `while self.empty(): …` / `return self.get_nowait()` of `Queue.get` -/
 def tryGet (s : Sys) : Option (Item × Sys) :=
